@@ -34,6 +34,12 @@ class SimTextStream(io.TextIOBase):
         self._fail_write_at = fail_write_at
         self._fail_read_at = fail_read_at
 
+    encoding_name = None
+
+    @property
+    def encoding(self):
+        return self.encoding_name
+
     def readable(self):
         return True
 
